@@ -177,8 +177,80 @@ def task_b(cfg):
     return cov, viols
 
 
+# ---------------------------------------------------------------- table enumeration on one long single-worker history
+
+SPACED = [0.318, 1.207, 2.449, 3.061, 4.733, 5.392]
+
+
+def curve_table(cfg, V, p1, p2, p3):
+    """T learning curves over R epochs: the trials in cfg['good'] take the values V (a 3-subset of SPACED, unequal gaps) in
+    the rank orders p1, p2, p3 at epochs 1, 2, 3 (criss-crossing curves, moves up and down between rung levels) and keep
+    the epoch-3 order afterwards; all other trials are poor and never leave the first rung"""
+    T, R, good = cfg["T"], cfg["R"], cfg["good"]
+    tab = []
+    for t in range(T):
+        if t in good:
+            i = good.index(t)
+            row = [V[p1[i]], V[p2[i]], V[p3[i]]] + [V[p3[i]] - 0.013 * (e - 3) for e in range(4, R + 1)]
+        else:
+            row = [20.0 + t - 0.013 * e for e in range(1, R + 1)]
+        tab.append(row)
+    return tab
+
+
+def long_run(cfg, tab, mode):
+    sign = 1.0 if mode == "min" else -1.0
+    s, info = scheds.make(cfg["kind"], mode=mode, seed=cfg["seed"], R=cfg["R"], mra=True, **cfg.get("kw", {}))
+    spec = dict(W=1, T=cfg["T"], R=cfg["R"], table=[[sign * v for v in row] for row in tab], brackets=0, max_resource_attr=info["mra"])
+    w = World(s, spec, [])
+    evs = []
+    for _ in range(cfg.get("horizon", 250)):
+        en = w.enabled()
+        if not en or w.dead:
+            break
+        non_s = [e for e in en if e[0] != "S"]
+        ev = non_s[0] if non_s else en[0]
+        evs.append(ev)
+        w.step(ev)
+    return evs, [o[:3] if o[0] == "suggest" else o for o in w.trace]
+
+
+def tables_of(cfg):
+    import itertools
+    perms = list(itertools.permutations(range(3)))
+    for V in cfg["subsets"]:
+        for p1 in perms:
+            for p2 in perms:
+                for p3 in perms:
+                    yield tuple(V), p1, p2, p3
+
+
+def task_t(cfg):
+    """every table of the family on the one history a single worker produces; min on f vs max on -f"""
+    cov, viols = Coverage(), []
+    ctx = f"tables/{cfg['kind']}"
+    for V, p1, p2, p3 in tables_of(cfg):
+        tab = curve_table(cfg, V, p1, p2, p3)
+        ea, ta = long_run(cfg, tab, "min")
+        eb, tb = long_run(cfg, tab, "max")
+        cov.add("evaluations", 2)
+        cov.add("traces_validated_against_impl", 2)
+        cov.add("transitions", len(ta) + len(tb))
+        cov.add("states", len(ta))
+        cov.outcome("tables:promotions=%d" % sum(1 for o in ta if o[0] == "suggest" and o[1] == "resume"))
+        if ta != tb or ea != eb:
+            i = next((i for i, (x, y) in enumerate(zip(ta, tb)) if x != y), min(len(ta), len(tb)))
+            what = "decision" if i < len(ta) and ta[i][0] == "report" else "suggestion"
+            key = f"{ctx}|twin:{what}-differs"
+            if not any(v.key == key for v in viols):
+                viols.append(Violation(PROP, key, f"table V={V} rank orders at epochs 1,2,3 = {p1},{p2},{p3}; single-worker history, after {i} events: "
+                                                  f"mode min on f gives {ta[i] if i < len(ta) else None}, mode max on -f gives {tb[i] if i < len(tb) else None}",
+                                       {"engine": "tables", "cfg": cfg, "table": [list(V), list(p1), list(p2), list(p3)]}))
+    return cov, viols
+
+
 def task(t):
-    return task_a(t[1]) if t[0] == "A" else task_b(t[1])
+    return task_a(t[1]) if t[0] == "A" else (task_t(t[1]) if t[0] == "T" else task_b(t[1]))
 
 
 def configs(tier, seed):
@@ -207,6 +279,18 @@ def configs(tier, seed):
         for W in (1, 2):
             out.append(("A", dict(src="generic", max_states=1500 if tier == "quick" else 7000,
                                   cfg=dict(kind=kind, seed=seed, R=4 if kind in ("dehb", "shb") else 3, W=W, T=T, F=0, mode="min"))))
+    # table enumeration: PASHA (levels 1, 3, 9; soft ranking with a learnt epsilon needs criss-crossing curves and three trials
+    # in the top rung) and plain promotion on the same curves, one long single-worker history per table.
+    # T=9: with 10 entries in a rung the 1/3-quantile position is 3.0 in one mode and 6.000000000000001 in the other (round-off
+    # of a threshold against a metric value, which the property excludes)
+    import itertools
+    subsets = list(itertools.combinations(SPACED[:5] if tier == "quick" else SPACED, 3))
+    goods = [(0, 2, 4)] if tier == "quick" else [(0, 2, 4), (1, 2, 5), (0, 1, 2)]
+    for kind in ("hb-pasha", "hb-promotion"):
+        for good in goods:
+            for i in range(0, len(subsets), 2):
+                out.append(("T", dict(kind=kind, T=9, R=27, seed=seed, good=list(good), kw=dict(reduction_factor=3),
+                                      subsets=[list(v) for v in subsets[i:i + 2]])))
     for ki, kind in enumerate(["fifo-random", "hb-stopping", "hb-promotion", "median", "shb", "pbt"]):
         for pi, prof in enumerate(tunerx.PROFILES):
             if (pi + ki + seed) % (8 if tier == "quick" else 2) != 0:
@@ -231,7 +315,9 @@ def run(tier, seed):
                 "on twin A (mode min, table f) and twin B (mode max, table -f) with equal seeds; every suggestion (start/resume, ids, "
                 "configurations) and decision must be identical; branches where a reference threshold is within 1e-9 of a metric are "
                 "pruned and counted. Tuner-level twins: the deviation-bounded choice tree of Tuner.run is enumerated on the min twin and "
-                "replayed on the max twin: scheduler-call traces, status counters and Tuner.best_config must agree.")
+                "replayed on the max twin: scheduler-call traces, status counters and Tuner.best_config must agree. Table enumeration: "
+                "for PASHA (levels 1,3,9) and plain promotion every table of a family of criss-crossing learning curves (3 good of 9 "
+                "trials, values from 3-subsets of an unequally spaced set, all 6^3 rank orders at epochs 1-3) on the single-worker history.")
     res.bounds = {"configs": len(cfgs), "tier": tier}
     res.assumptions = list(env.ASSUMPTIONS)
     return res
@@ -239,6 +325,15 @@ def run(tier, seed):
 
 def replay(data):
     out = []
+    if data.get("engine") == "tables":
+        cfg = dict(data["cfg"])
+        V, p1, p2, p3 = data["table"]
+        tab = curve_table(cfg, V, p1, p2, p3)
+        ea, ta = long_run(cfg, tab, "min")
+        eb, tb = long_run(cfg, tab, "max")
+        if ta != tb or ea != eb:
+            out.append(Violation(PROP, "twin:trace-differs", f"min: {ta[-6:]} max: {tb[-6:]}"))
+        return out
     if "history" in data:
         t = dict(src=data["cfg"]["src"], cfg=data["cfg"]["cfg"])
         w = build_twin(t)
